@@ -2824,7 +2824,7 @@ class UTPM(Ring, RawAlgorithmsMixIn):
             out = (x.zeros_like(),)
 
         xbar, = out
-        Nx = xbar.shape[0]
+        Nx = min(xbar.shape[0], xbar.shape[1])
         for nx in range(Nx):
             xbar[nx,nx] += ybar
 
